@@ -48,14 +48,20 @@ def _gen_case_a(seed: int, tier: str, index: int) -> Dict[str, Any]:
         net.update(loss=0.1, dup=0.2, dup_max=1.0, lat_max=0.15, slow_p=0.05, slow_max=1.0)
         loop_cfg.update(cost_stall_p=0.002, cost_stall_min=0.03, cost_stall_max=0.5)
     n = rng.randint(5, 40) if tier == "quick" else rng.randint(20, 200)
+    long_session = index % 12 == 7
+    if long_session:
+        # more than one full cycle of protocol sequence numbers (191) on one connection, acknowledgements among them
+        profile = "faultfree"
+        net = {"lat_min": 0.001, "lat_max": 0.004}
+        n = rng.randint(230, 420)
     plan: List[Dict[str, Any]] = []
     t = 0.0
     early = rng.random() < 0.3 and profile in ("faultfree", "stall", "dup", "loss")
     val = rng.randrange(1, 60000)
     hot = [rng.randrange(0, 1022) for _ in range(4)]
     for k in range(n):
-        t += rng.choice([0.0, 0.002, 0.05, 0.3, 1.0, 3.0])
-        kind = rng.choices(["statp", "set1", "refresh"], [6, 2, 2])[0]
+        t += rng.choice([0.0, 0.002, 0.05, 0.3, 1.0, 3.0]) if not long_session else rng.choice([0.25, 0.4])
+        kind = rng.choices(["statp", "set1", "refresh"], [6, 2, 2] if not long_session else [8, 1, 0.3])[0]
         if kind == "statp":
             cnt = rng.choice([0, 1, 1, 2, 3, 8, 30])
             recs = []
@@ -73,7 +79,9 @@ def _gen_case_a(seed: int, tier: str, index: int) -> Dict[str, Any]:
             start = max(0, rng.choice(hot) - rng.randrange(0, 60))
             plan.append({"op": "refresh", "t": round(t, 4), "start": start, "length": min(1024 - start, rng.choice([1, 40, 120, 400]))})
     snaps = snapshot_files()
-    cfg = {"profile": profile, "net": net, "loop": loop_cfg, "tables": tables, "early": early,
+    if long_session:
+        early = False
+    cfg = {"profile": profile, "net": net, "loop": loop_cfg, "tables": tables, "early": early, "long_session": long_session,
            "snapshot": snaps[rng.randrange(len(snaps))].split("/")[-1]}
     return {"property": PROP, "world": world, "seed": seed, "cfg": cfg, "plan": plan}
 
@@ -221,6 +229,8 @@ def check(world: WorldA, sysm: System) -> None:
             res.probe("duplicate_datagram_arrived")
         if len(arrivals) >= 2:
             res.probe("two_or_more_messages")
+        if len(arrivals) >= 192:
+            res.probe("more_than_a_full_sequence_cycle_of_messages")
         if single:
             if partial != expected:
                 # classify
@@ -318,7 +328,7 @@ ASSUMPTIONS = [
     "arrival order is the order of delivery to the client's endpoint (a duplicated datagram is a second arrival)",
     "if the connection is torn down mid-run (rare; probe 'reconnected') only prefix consistency is demanded of the abandoned one",
 ]
-PROBES = ["two_or_more_messages", "empty_message", "repeated_position_in_message", "duplicate_datagram_arrived",
+PROBES = ["more_than_a_full_sequence_cycle_of_messages", "two_or_more_messages", "empty_message", "repeated_position_in_message", "duplicate_datagram_arrived",
           "refresh_over_partial", "message_during_handshake", "one_byte_change"]
 N_QUICK = 1200
 
